@@ -34,12 +34,12 @@ func putVarintWidth(v uint64, w int) []byte {
 // Returns the mutated bytes and the mutation class (for the evidence histogram).
 func Mutate(t *rapid.T, base []byte, others [][]byte, fieldOffsets []int) ([]byte, string) {
 	b := append([]byte{}, base...)
-	kind := rapid.IntRange(0, 11).Draw(t, "mut")
+	kind := Uniform(t, 12, "mut")
 	switch kind {
 	case 0:
 		return b, "identity"
 	case 1:
-		cut := rapid.IntRange(0, len(b)).Draw(t, "cut")
+		cut := UniformRange(t, 0, len(b), "cut")
 		return b[:cut:cut], "truncate"
 	case 2:
 		ext := rapid.SliceOfN(rapid.Byte(), 1, 40).Draw(t, "ext")
@@ -48,7 +48,7 @@ func Mutate(t *rapid.T, base []byte, others [][]byte, fieldOffsets []int) ([]byt
 		if len(b) == 0 {
 			return b, "identity"
 		}
-		bit := rapid.IntRange(0, len(b)*8-1).Draw(t, "bit")
+		bit := Uniform(t, len(b)*8, "bit")
 		b[bit/8] ^= 1 << (7 - bit%8)
 		return b, "bitflip"
 	case 4:
@@ -62,9 +62,9 @@ func Mutate(t *rapid.T, base []byte, others [][]byte, fieldOffsets []int) ([]byt
 		if len(others) == 0 {
 			return b, "identity"
 		}
-		o := rapid.SampledFrom(others).Draw(t, "other")
-		i := rapid.IntRange(0, len(b)).Draw(t, "i")
-		j := rapid.IntRange(0, len(o)).Draw(t, "j")
+		o := Pick(t, others, "other")
+		i := UniformRange(t, 0, len(b), "i")
+		j := UniformRange(t, 0, len(o), "j")
 		return append(b[:i:i], o[j:]...), "splice"
 	case 6, 7:
 		// overwrite a length-like field with a hostile value in a drawn width
@@ -72,7 +72,7 @@ func Mutate(t *rapid.T, base []byte, others [][]byte, fieldOffsets []int) ([]byt
 			return b, "identity"
 		}
 		pos := pickOffset(t, len(b), fieldOffsets)
-		v := rapid.SampledFrom(hostileLens).Draw(t, "hostile")
+		v := Pick(t, hostileLens, "hostile")
 		if rapid.Bool().Draw(t, "relative") {
 			rem := len(b) - pos
 			v = uint64(rem + rapid.IntRange(-9, 2).Draw(t, "delta"))
@@ -81,7 +81,7 @@ func Mutate(t *rapid.T, base []byte, others [][]byte, fieldOffsets []int) ([]byt
 			}
 		}
 		var enc []byte
-		switch rapid.IntRange(0, 5).Draw(t, "enc") {
+		switch Uniform(t, 6, "enc") {
 		case 0:
 			enc = []byte{byte(v)}
 		case 1:
@@ -108,11 +108,11 @@ func Mutate(t *rapid.T, base []byte, others [][]byte, fieldOffsets []int) ([]byt
 		if len(b) < 2 {
 			return b, "identity"
 		}
-		i := rapid.IntRange(0, len(b)-1).Draw(t, "i")
-		n := rapid.IntRange(1, min(len(b)-i, 64)).Draw(t, "n")
+		i := Uniform(t, len(b), "i")
+		n := UniformRange(t, 1, min(len(b)-i, 64), "n")
 		return append(b[:i:i], b[i+n:]...), "delete-chunk"
 	case 9:
-		i := rapid.IntRange(0, len(b)).Draw(t, "i")
+		i := UniformRange(t, 0, len(b), "i")
 		ins := rapid.SliceOfN(rapid.Byte(), 1, 64).Draw(t, "ins")
 		return append(append(append([]byte{}, b[:i]...), ins...), b[i:]...), "insert-chunk"
 	case 10:
@@ -126,13 +126,13 @@ func Mutate(t *rapid.T, base []byte, others [][]byte, fieldOffsets []int) ([]byt
 }
 
 func pickOffset(t *rapid.T, n int, fieldOffsets []int) int {
-	if len(fieldOffsets) > 0 && rapid.IntRange(0, 3).Draw(t, "atField") != 0 {
-		o := rapid.SampledFrom(fieldOffsets).Draw(t, "field")
+	if len(fieldOffsets) > 0 && Uniform(t, 4, "atField") != 0 {
+		o := Pick(t, fieldOffsets, "field")
 		if o < n {
 			return o
 		}
 	}
-	return rapid.IntRange(0, n-1).Draw(t, "pos")
+	return Uniform(t, n, "pos")
 }
 
 // ---------------------------------------------------------------- framed messages
@@ -182,18 +182,18 @@ func MutateParts(t *rapid.T, parts []Part, others [][]byte) ([]byte, string) {
 	for i, p := range parts {
 		ps[i] = Part{p.Kind, append([]byte{}, p.Data...)}
 	}
-	i := rapid.IntRange(0, len(ps)-1).Draw(t, "part")
+	i := Uniform(t, len(ps), "part")
 	d := ps[i].Data
 	class := ""
-	switch rapid.IntRange(0, 7).Draw(t, "pm") {
+	switch Uniform(t, 8, "pm") {
 	case 0:
 		d, class = []byte{}, "empty"
 	case 1:
-		n := rapid.IntRange(0, min(len(d), 64)).Draw(t, "keep")
+		n := UniformRange(t, 0, min(len(d), 64), "keep")
 		d, class = d[:n], "short-prefix"
 	case 2:
 		if len(d) > 0 {
-			n := rapid.IntRange(max(0, len(d)-40), len(d)).Draw(t, "keep")
+			n := UniformRange(t, max(0, len(d)-40), len(d), "keep")
 			d = d[:n]
 		}
 		class = "cut-tail"
@@ -203,12 +203,12 @@ func MutateParts(t *rapid.T, parts []Part, others [][]byte) ([]byte, string) {
 		d, class = rapid.SliceOfN(rapid.Byte(), 0, 70).Draw(t, "rand"), "random"
 	case 5:
 		if len(d) > 0 {
-			bit := rapid.IntRange(0, len(d)*8-1).Draw(t, "bit")
+			bit := Uniform(t, len(d)*8, "bit")
 			d[bit/8] ^= 1 << (7 - bit%8)
 		}
 		class = "bitflip"
 	case 6:
-		n := rapid.SampledFrom([]int{1, 15, 16, 17, 31, 32, 33, 47, 48, 49, 63, 64, 65, 95, 96, 97, 144, 145, 146, 255, 256, 257}).Draw(t, "len")
+		n := Pick(t, []int{1, 15, 16, 17, 31, 32, 33, 47, 48, 49, 63, 64, 65, 95, 96, 97, 144, 145, 146, 255, 256, 257}, "len")
 		nd := make([]byte, n)
 		copy(nd, d)
 		d, class = nd, "resize"
@@ -216,7 +216,7 @@ func MutateParts(t *rapid.T, parts []Part, others [][]byte) ([]byte, string) {
 		d, class = Mutate(t, d, others, []int{0, 1, 2, 3})
 	}
 	ps[i].Data = d
-	w := rapid.SampledFrom([]int{1, 1, 1, 2, 4, 8}).Draw(t, "vw")
+	w := Pick(t, []int{1, 1, 1, 2, 4, 8}, "vw")
 	return Assemble(ps, w), "part:" + class
 }
 
